@@ -5,8 +5,13 @@ use super::hostname::lex_hostname;
 use crate::TokenKind;
 
 pub fn lex_email_address(source: &[char]) -> Option<FoundToken> {
-    // Location of the @ sign
-    let (at_loc, _) = source.iter().enumerate().rev().find(|(_, c)| **c == '@')?;
+    // Location of the @ sign: directly after the local part that starts here. (Looking for it
+    // anywhere in the remaining text would make this address depend on any later `@`.)
+    let at_loc = local_part_len(source)?;
+
+    if source.get(at_loc) != Some(&'@') {
+        return None;
+    }
 
     let local_part = &source[0..at_loc];
 
@@ -24,6 +29,30 @@ pub fn lex_email_address(source: &[char]) -> Option<FoundToken> {
         next_index: at_loc + 1 + domain_part_len,
         token: TokenKind::EmailAddress,
     })
+}
+
+/// The length of the quoted or unquoted local part at the start of `source`.
+fn local_part_len(source: &[char]) -> Option<usize> {
+    if source.first() == Some(&'"') {
+        let mut cursor = 1;
+
+        while cursor < source.len() {
+            match source[cursor] {
+                '\\' => cursor += 2,
+                '"' => return Some(cursor + 1),
+                _ => cursor += 1,
+            }
+        }
+
+        None
+    } else {
+        Some(
+            source
+                .iter()
+                .position(|c| !valid_unquoted_character(*c))
+                .unwrap_or(source.len()),
+        )
+    }
 }
 
 /// Check to see if a given slice is a valid local part of an email address.
